@@ -9,6 +9,7 @@
 -/
 import PgProofs.Typing
 import PgProofs.TypingExtend
+import PgProofs.TypingUnion
 namespace Pg.Typing
 
 /-- Environment of the counterexamples: classes 0 ⊃ 1, every regex matches. -/
@@ -291,10 +292,29 @@ theorem C04_compat_exclusion_F42 :
     CompatOk a b = false ∧ CompatOk a b0 = true ∧ isCompatible env0 a b = true ∧
       accepts env0 b (.dict []) = true ∧ accepts env0 a (.dict []) = false := by decide
 
-/-- `Union` receivers (F43) are outside `CompatOk`. -/
+/-- **Compatibility is sound for `Union` receivers on `CompatOkUnion`** (PgProofs/TypingUnion.lean):
+non-frozen candidates that are leaves (no `Any` / `Enum` / nested `Union`) of pairwise disjoint
+value types — so that `Union._apply` routes every value to the one candidate that can accept it —
+against any non-union `b` that is in `CompatOk` with the candidates of its class. -/
+theorem C04_compat_partial_union (env : Env) (ht : SubTrans env) (cands : List Spec) (f : Flags)
+    (b : Spec) (hok : CompatOkUnion cands f b = true)
+    (hc : isCompatible env (.union cands f) b = true) (v : Val) (hv : accepts env b v = true) :
+    accepts env (.union cands f) v = true :=
+  compat_sound_union env ht cands f b hok hc v hv
+
+/-- The disjointness conjunct is needed (F43): `Float` and `Int` candidates overlap on ints (the
+int→float converter), and with the `Int` candidate removed the pair is inside the class. -/
 theorem C04_compat_exclusion_F43 :
-    CompatOk (.union [.float none none F0, .int none (some 1) F0] F0) (.float none none F0) = false := by
-  decide
+    let b : Spec := .float none none F0
+    CompatOkUnion [.float none none F0, .int none (some 1) F0] F0 b = false ∧
+    simpleUnion [.float none none F0, .int none (some 1) F0] = false ∧
+    CompatOkUnion [.float none none F0, .str none F0] F0 b = true ∧
+    isCompatible env0 (.union [.float none none F0, .int none (some 1) F0] F0) b = true ∧
+    accepts env0 b (.int 2) = true ∧
+    accepts env0 (.union [.float none none F0, .int none (some 1) F0] F0) (.int 2) = false := by decide
+
+example : accepts env0 (.union [.float (some ⟨0, 0⟩) none F0, .str none F0] F0) (.int 2) = true :=
+  C04_compat_partial_union env0 env0_trans _ _ (.float (some ⟨1, 0⟩) none F0) (by decide) (by decide) _ (by decide)
 
 /-- Environment in which every regular expression matches every string. -/
 def envR : Env := ⟨fun a b => a == b, fun _ _ => true⟩
